@@ -231,37 +231,37 @@ func (gc GeometryCollection) Similar(g Geom, tolerance float64) bool {
 	}
 }
 
+// ringSimilar determines whether two rings are similar within tolerance e
+// when b is started at any one of its points. The last point of each ring,
+// which matches its first point, is skipped.
 func ringSimilar(a, b []Point, e float64) bool {
 	if len(a) != len(b) {
 		return false
 	}
-	ia := minPt(a)
-	ib := minPt(b)
-	for i := 0; i < len(a); i++ {
-		if !pointSimilar(a[ia], b[ib], e) {
+	n := len(a) - 1 // Skip the last point that matches the first point.
+	if n < 1 {
+		return pointsSimilar(a, b, e)
+	}
+	// Anchoring each ring at its own bottom-most of leftmost points is not
+	// reliable: when two points of a ring are both within e of being the
+	// anchor (as in any axis-aligned rectangle), a and b can be anchored at
+	// different corners and are then compared out of phase. Try every
+	// starting point of b instead.
+	for k := 0; k < n; k++ {
+		if ringSimilarFrom(a, b, k, n, e) {
+			return true
+		}
+	}
+	return false
+}
+
+// ringSimilarFrom compares the first n points of a, in order, to the first n
+// points of b taken cyclically starting at b[k].
+func ringSimilarFrom(a, b []Point, k, n int, e float64) bool {
+	for i := 0; i < n; i++ {
+		if !pointSimilar(a[i], b[(i+k)%n], e) {
 			return false
 		}
-		ia = nextPt(ia, len(a))
-		ib = nextPt(ib, len(b))
 	}
 	return true
-}
-
-// ring iterator function
-func nextPt(i, l int) int {
-	if i == l-2 { // Skip the last point that matches the first point.
-		return 0
-	}
-	return i + 1
-}
-
-// find bottom-most of leftmost points, to have fixed anchor
-func minPt(c []Point) int {
-	min := 0
-	for j, p := range c {
-		if p.X < c[min].X || p.X == c[min].X && p.Y < c[min].Y {
-			min = j
-		}
-	}
-	return min
 }
